@@ -879,4 +879,9 @@ pub fn run(run: &Run) {
     run.random("hostile-quoted", q * 2, 30, get("hostile-quoted"));
     run.random("hostile-hex", q, 30, get("hostile-hex"));
     let _ = (BytesLit::quoted(b""), IntLit::dec(0), IntForm::Dec, BytesForm::Quoted(0));
+    if run.tier == Tier::Thorough {
+        // coverage-guided search over the same generators (libFuzzer drives the choice sequences)
+        fuzz_campaign_sub(run, "choices", Some(("hostile-quoted", get("hostile-quoted"))), 4, 400_000, 120, None);
+        fuzz_campaign_sub(run, "choices", Some(("bytes", get("bytes"))), 4, 300_000, 320, None);
+    }
 }
